@@ -414,11 +414,11 @@ Fixpoint rev_ref_run (w : Z) (R : list Z) (pos : Z) (ops : list op) : list out :
   | o :: rest => let '(r, p') := rev_ref_step w R pos o in r :: rev_ref_run w R p' rest
   end.
 
-Lemma seek_target_ref size pos off wh : 0 <= size ->
+Lemma seek_target_ref size pos off wh : 0 < size ->
   seek_target size pos off wh
   = Z.max 0 (Z.min size ((if wh =? 1 then pos else if wh =? 2 then size else 0) + off)).
 Proof.
-  intros Hsize. unfold seek_target, clamp_pos.
+  intros Hsize. unfold seek_target. rewrite clamp_pos_pos by assumption.
   destruct (Z.gtb_spec ((if wh =? 1 then pos else if wh =? 2 then size else 0) + off) size); [lia|].
   destruct (Z.ltb_spec ((if wh =? 1 then pos else if wh =? 2 then size else 0) + off) 0); lia.
 Qed.
